@@ -17,7 +17,7 @@ EXPLANATION = (
     "is <= the number of generation names pushed by the fill loop (conjunction of `i < bound` tests), by construction: start is "
     "`list.size()-1`, or a min over exactly the fill bounds; R29.2 fill pushes base first then `base.(i+1)`, shift renames "
     "list[i-1] -> list[i] for descending i, rename arguments are list elements only, and (logger) the block is control-dependent on "
-    "`!append || force`, (persister) on purge. NOT decided: what rename does to files.")
+    "`!append || force`, (persister) on purge. R29.3 the fill loop names exactly min(_rotnum, max_rotation) generations (strict bounds against the count and the documented cap) and has no early exit. NOT decided: what rename does to files.")
 
 SITES = (('FIX8::FileLogger::rotate', 'logger'), ('FIX8::FilePersister::initialise', 'persister'))
 
@@ -80,12 +80,35 @@ def run(ctx):
         fi2 = finc.strip(casts=True)
         ctx.need(fi2.k == 'UnaryOperator' and fi2.op == '++' and q.refers_to_decl(fi2.children[0], flv), fq + ': fill loop step is not ++')
         bounds = []
+        bound_nodes = []
         for a in q.formula_atoms(q.bool_atoms(fc)):
             s = a.strip(casts=True)
-            ok = s.k == 'BinaryOperator' and s.op == '<' and q.refers_to_decl(s.children[0], flv)
+            ok = s.k == 'BinaryOperator' and s.op in ('<', '<=') and q.refers_to_decl(s.children[0], flv)
             ctx.need(ok and q.bool_atoms(fc)[0] in ('and', 'atom'), fq + ': fill loop condition is not a conjunction of `i < bound`')
             bounds.append(s.children[1].strip(casts=True).text())
+            bound_nodes.append(s)
         ctx.need(bounds, fq + ': no fill bound')
+        # R29.3 how many generations are named: exactly min(configured count, documented maximum), one per iteration, no early exit
+        maxrot = [v for (n_, v) in []]
+        mr = None
+        for t_ in prog.tus:
+            for v_ in t_.vars if hasattr(t_, 'vars') else []:
+                if v_.get('q', '').endswith('Logger::max_rotation') and v_.get('cv') is not None:
+                    mr = v_['cv']
+        capb = [b for b in bound_nodes if b.children[1].strip(casts=True).value is not None]
+        cntb = [b for b in bound_nodes if any(x.k == 'MemberExpr' and x.decl.get('n') == '_rotnum' for x in b.children[1].walk())]
+        ctx.check(len(capb) == 1 and len(cntb) == 1 and len(bound_nodes) == 2 and all(b.op == '<' for b in bound_nodes) and
+                  (mr is None or capb[0].children[1].strip(casts=True).value == mr),
+                  'R29.3', fq + '#fill.count', fl.loc,
+                  'generations named = min(_rotnum, max_rotation%s): `i < _rotnum && i < max_rotation`' % ('' if mr is None else ' = %d' % mr),
+                  'the fill loop runs while `%s`: it names %s generation(s) than min(configured count, documented maximum %s) — rotation then shifts (and overwrites) '
+                  'a file beyond the documented bound' % (fc.text(), 'more' if any(b.op == '<=' for b in bound_nodes) else 'a different number of',
+                                                          capb[0].children[1].strip(casts=True).value if capb else '?'))
+        exits = [x for x in fl.child('body').walk() if x.k in ('BreakStmt', 'ReturnStmt', 'GotoStmt', 'CXXThrowExpr')]
+        ctx.check(not exits, 'R29.3', fq + '#fill.no-early-exit', (exits[0].loc if exits else fl.loc),
+                  'the fill loop names every generation up to the bound (its only exit is its condition)',
+                  'the fill loop can stop early at %s: generations above that point are never shifted (a set with a hole, e.g. log, .1, .2, .4, keeps .4 in place '
+                  'instead of moving it to .5)' % (exits[0].loc if exits else ''))
         # each vector gets exactly one push per iteration, and one base push before the loop
         for vid in vec_ids:
             per_iter = [p for p in pbs if p.obj.strip(casts=True).declid == vid]
@@ -142,6 +165,7 @@ def run(ctx):
                       a.strip(casts=True).children[1].strip(casts=True).value == 0 for a, pol in atoms), 'R29.2', fq + '#gate.count', renames[0].loc,
                   'no rotation when the configured count is 0')
     ctx.floor('R29.1', 2)
+    ctx.floor('R29.3', 4)
     ctx.floor('R29.2', 14)
 
 
